@@ -18,6 +18,7 @@ import (
 var c13Cfgs = []hostCfg{
 	{"", -1, true, false, false}, {"lab", -1, true, true, false}, {"", 1, true, false, false}, {"lab", 1, true, true, false},
 	{"", 0, true, false, false}, {"lab", 0, true, false, false}, {"", 1, false, false, false}, {"lab", 0, false, true, false},
+	{"lab", -1, true, false, true}, {"lab", 1, true, true, true},
 }
 
 type c13State struct {
@@ -376,7 +377,7 @@ func runC13Streams(run *Run, seed int64, cfgI int, id string, full bool) (out []
 	if cfg.EncVsn >= 0 {
 		hdr := []byte{TEncrypt, 0, 0, 0, 0}
 		binary.BigEndian.PutUint32(hdr[1:], 20<<20+1)
-		caps = append(caps, capCase{"encrypted-length>20MiB", append(append(LabelHeader(cfg.Label), hdr...), filler...), int64(len(cfg.Label) + 2 + 5 + 4096)})
+		caps = append(caps, capCase{"encrypted-length>20MiB", append(append(append([]byte(nil), v.header()...), hdr...), filler...), int64(len(v.header()) + 5 + 4096)})
 	}
 	if cfg.EncVsn >= 0 {
 		// an authentic frame whose plaintext is empty
